@@ -125,12 +125,16 @@ def battery():
 def run(rep, tier):
     prog = program(['conjure_object'])
     rep.bounds['values'] = 'all f64 (z3 floating point) for the special-casing; all valid-UTF-8 strings <= 9 bytes for FromPlain of f64; one symbolic value per delegating impl'
-    run_f64(rep, prog)
-    run_delegation(rep, prog)
-    run_generated(rep)
+    with rep.part('f64 plain'):
+        run_f64(rep, prog)
+    with rep.part('plain delegation'):
+        run_delegation(rep, prog)
+    with rep.part('generated plain'):
+        run_generated(rep)
     # safelong text route (C15's machinery): every in-range value's decimal text is accepted by from_plain with its value
     from checks import c15
-    c15.run_m(rep, tier)
+    with rep.part('safelong text'):
+        c15.run_m(rep, tier)
     ops = [{'op': 'plain_roundtrip'}]
     r = replay(ops)[0]
     rep.replayed += 1
